@@ -150,6 +150,7 @@ func runC11(c *core.Case) *core.Result {
 	overlap := false
 	c.Step("type=%s clients=%d pushes=%d mode=%d gate=%q at push %d", typ, ncli, npush, mode, gateAt, gatePush)
 	currentPush := 0
+	delayRng := newRand(r.Int63())
 	w.b.DB.SetPlan(func(cmd *fakemongo.Cmd) fakemongo.Action {
 		gmu.Lock()
 		defer gmu.Unlock()
@@ -173,7 +174,7 @@ func runC11(c *core.Case) *core.Result {
 			return fakemongo.Action{}
 		}
 		if cmd.Coll == "-_-Snapshots" || cmd.Coll == "colA" {
-			return fakemongo.Action{Delay: time.Duration(r.Intn(3)) * time.Millisecond}
+			return fakemongo.Action{Delay: time.Duration(delayRng.Intn(3)) * time.Millisecond} // own PRNG: this callback runs on the stand-in's connection goroutines (serialised by gmu)
 		}
 		return fakemongo.Action{}
 	})
@@ -366,7 +367,11 @@ func runC11(c *core.Case) *core.Result {
 	// ---- user collection writes: version recorded, content = replay(v), versions never decrease
 	lastVer := int64(-1)
 	writes := 0
-	for _, cmd := range w.b.DB.LogFrom(0) {
+	// in the order the writes were EXECUTED (a write that a plan delayed or gated executes after
+	// writes that arrived later; what the store goes through is the execution order)
+	cmdLog := w.b.DB.LogFrom(0)
+	sort.SliceStable(cmdLog, func(i, j int) bool { return cmdLog[i].Exec < cmdLog[j].Exec })
+	for _, cmd := range cmdLog {
 		if cmd.Coll != "colA" || cmd.Failed || len(cmd.Post) == 0 { // any kind of write command
 			continue
 		}
